@@ -152,6 +152,12 @@ impl ThreadSafeRequestManager {
 	pub(crate) fn lock(&self) -> std::sync::MutexGuard<'_, RequestManager> {
 		self.0.lock().expect(NOT_POISONED)
 	}
+
+	/// Verification hook: a weak handle that does not keep the manager alive.
+	#[cfg(jsonrpsee_verif)]
+	pub(crate) fn verif_weak(&self) -> std::sync::Weak<std::sync::Mutex<RequestManager>> {
+		Arc::downgrade(&self.0)
+	}
 }
 
 pub(crate) type SharedDisconnectReason = Arc<std::sync::RwLock<Option<Arc<Error>>>>;
@@ -339,6 +345,9 @@ impl<L> ClientBuilder<L> {
 			}
 		};
 
+		#[cfg(jsonrpsee_verif)]
+		let verif_mgr = manager.verif_weak();
+
 		tokio::spawn(send_task(SendTaskParams {
 			sender,
 			from_frontend: from_front,
@@ -367,6 +376,8 @@ impl<L> ClientBuilder<L> {
 			error: ErrorFromBack::new(to_back, disconnect_reason),
 			id_manager: RequestIdManager::new(self.id_kind),
 			on_exit: Some(client_dropped_tx),
+			#[cfg(jsonrpsee_verif)]
+			verif_mgr,
 		}
 	}
 
@@ -393,6 +404,9 @@ impl<L> ClientBuilder<L> {
 		let ping_interval = PendingIntervalStream::pending();
 		let inactivity_stream = PendingIntervalStream::pending();
 		let inactivity_check = InactivityCheck::Disabled;
+
+		#[cfg(jsonrpsee_verif)]
+		let verif_mgr = manager.verif_weak();
 
 		wasm_bindgen_futures::spawn_local(send_task(SendTaskParams {
 			sender,
@@ -426,6 +440,8 @@ impl<L> ClientBuilder<L> {
 			error: ErrorFromBack::new(to_back, disconnect_reason),
 			id_manager: RequestIdManager::new(self.id_kind),
 			on_exit: Some(client_dropped_tx),
+			#[cfg(jsonrpsee_verif)]
+			verif_mgr,
 		}
 	}
 }
@@ -443,6 +459,18 @@ pub struct Client<L = RpcLogger<RpcService>> {
 	/// When the client is dropped a message is sent to the background thread.
 	on_exit: Option<oneshot::Sender<()>>,
 	service: L,
+	/// Verification hook: weak handle to the request manager of the background tasks.
+	#[cfg(jsonrpsee_verif)]
+	verif_mgr: std::sync::Weak<std::sync::Mutex<RequestManager>>,
+}
+
+#[cfg(jsonrpsee_verif)]
+impl<L> Client<L> {
+	/// Verification hook: sizes of the four request manager tables
+	/// (requests, subscriptions, batches, notification handlers), or `None` once the manager is gone.
+	pub fn verif_table_sizes(&self) -> Option<[usize; 4]> {
+		self.verif_mgr.upgrade().map(|m| m.lock().expect(NOT_POISONED).verif_sizes())
+	}
 }
 
 impl Client<Identity> {
